@@ -83,6 +83,15 @@ PROPS = {
         "exhaustive": {"quick": False, "thorough": False},
         "assumptions": COMMON_ASSUME,
     },
+    "C12": {
+        "rule": "SLIT: localities 0..6 with exhaustive short assignment sequences over all cells incl. diagonal and mirrored writes, "
+                "random sequences on shapes to 40, out-of-range and (release) wrapping indices; HMAT system locality: shapes 1..5 x 1..5 "
+                "with all cells assigned in random order incl. repeats, single row / column, random shapes to 20x20, out-of-range "
+                "indices; every observed image must equal the reference (abstract matrix: last value per cell / unordered pair) and "
+                "sum to 0; distinct = distinct case text",
+        "exhaustive": {"quick": False, "thorough": False},
+        "assumptions": TABLE_ASSUME,
+    },
     "C13": {
         "rule": "cases = (constructor, operation sequence) on the generic table: all sequences of length <= 2 (thorough: <= 3 for two "
                 "initial lengths) over an alphabet of ~48 parameterised operations (typed/slice appends incl. empty, sink pushes, typed and "
